@@ -257,10 +257,20 @@ def register_dataclass_type_with_jax_tree_util(data_class):
         # Only declared fields are constructor arguments; derived attributes (e.g. the lazily
         # filled lnZ and mu of a GaussianMeasure) are recomputed and must not be passed to it.
         fields = d.__dataclass_fields__
-        keys, values = zip(*sorted((k, v) for k, v in d.__dict__.items() if k in fields))
-        return values, keys
+        items = sorted((k, v) for k, v in d.__dict__.items() if k in fields)
+        # Python ints, strings and plain callables (e.g. num_dim, control_func) describe the
+        # structure of the object; they are kept as static auxiliary data, not traced as leaves.
+        is_static = lambda v: isinstance(v, (int, str)) or (
+            callable(v) and not dataclasses.is_dataclass(v)
+        )
+        dynamic = tuple((k, v) for k, v in items if not is_static(v))
+        static = tuple((k, v) for k, v in items if is_static(v))
+        return tuple(v for _, v in dynamic), (tuple(k for k, _ in dynamic), static)
 
-    unflatten = lambda keys, values: data_class(**dict(zip(keys, values)))
+    def unflatten(aux, values):
+        keys, static = aux
+        return data_class(**dict(zip(keys, values)), **dict(static))
+
     try:
         jax.tree_util.register_pytree_node(
             nodetype=data_class, flatten_func=flatten, unflatten_func=unflatten
